@@ -125,7 +125,9 @@ static void build_program(prog_t *p, rng_t *r, char *feat, size_t featn) {
     for (int i = 0; i < nuser; ++i) { op_t *u = ol_add(&lists[nl], OP_USER); u->meta = (uint16_t) rng_below(r, 4096); u->stype = (uint8_t) rng_range(r, 1, 3); u->dsize = (uint32_t) rng_range(r, 1, 200); u->dseed = rng_u64(r);
         /* binary payloads whose on-disk size is 4048, 4056, 4064 (mod 4096) and their neighbours: every position of the next
          * chunk header relative to the end of a 4096-byte scan block occurs in each such program */
-        if (big_user) { static const uint32_t sz[] = {4040, 4048, 4056, 4032, 4064, 8136, 8144}; u->stype = JLS_STORAGE_TYPE_BINARY; u->dsize = sz[(i + (int) (g_prog_index / 2)) % 7] + (uint32_t) rng_below(r, 4); } }
+        if (big_user) { static const uint32_t sz[] = {4040, 4048, 4056, 4032, 4064, 8136, 8144}; u->stype = JLS_STORAGE_TYPE_BINARY; u->dsize = sz[(i + (int) (g_prog_index / 2)) % 7] + (uint32_t) rng_below(r, 4);
+            /* one of them holds complete chunk images (a JLS file kept as user data): found by whoever scans for chunk headers */
+            if (i == 2 || i == 4) u->dseed = (u->dseed & ~0xFFFULL) | PAYLOAD_EMBEDS_CHUNKS; } }
     ++nl;
     snprintf(feat + fn, featn - fn, "|late-def=%d|anno=%d|user=%d", late_def, nanno > 0, nuser > 0);
     op_t *ls[7]; size_t cn[7];
